@@ -1393,11 +1393,9 @@ func (f *fctx) callStmt(call *ast.CallExpr, c *callee, lhs []ast.Expr, define bo
 		}
 		if panics {
 			// match f … with Panicked s => Panicked <receiver with s stored> | Normal s r => … end
-			if obj == nil || rootIdent(obj) != f.fi.recvName || unparen(obj) != ast.Expr(obj) || !isIdent(obj) {
+			if obj == nil || !isIdent(obj) || rootIdent(obj) != f.fi.recvName {
 				t.fail(call.Pos(), "a call that can panic on anything but the receiver itself")
 			}
-			names := make([]ast.Expr, len(lhs))
-			copy(names, lhs)
 			rc := f.recvCoq()
 			inner := f.bindResults(call.Pos(), lhs, "res", results, define, e, ind+4, k)
 			if len(results) == 0 {
@@ -1415,6 +1413,15 @@ func (f *fctx) callStmt(call *ast.CallExpr, c *callee, lhs []ast.Expr, define bo
 		}
 		// let '(obj, r…) := term in store obj; bind r…
 		var names []string
+		direct := false
+		if id, ok := unparen(stripAddr(obj)).(*ast.Ident); ok {
+			if v, isVar := e.vars[id.Name]; isVar && (id.Name == f.fi.recvName || !strings.HasPrefix(v.typ, "*")) {
+				objTmp, direct = v.coq, true
+				if id.Name == f.fi.recvName {
+					f.sawWrite = true
+				}
+			}
+		}
 		names = append(names, objTmp)
 		tmpE := e1
 		var rnames []string
@@ -1425,8 +1432,12 @@ func (f *fctx) callStmt(call *ast.CallExpr, c *callee, lhs []ast.Expr, define bo
 		}
 		names = append(names, rnames...)
 		out := fmt.Sprintf("%slet %s := %s in\n", sp(ind), pattern(names), term)
-		line, e2 := storeObj(tmpE)
-		out += line
+		e2 := tmpE
+		if !direct {
+			var line string
+			line, e2 = storeObj(tmpE)
+			out += line
+		}
 		return out + f.bindResults(call.Pos(), lhs, tuple(rnames), results, define, e2, ind, k)
 	})
 }
